@@ -480,6 +480,9 @@ struct Emitter {
             for (unsigned i = 0; i < AS->getNumOutputs(); i++) j += (i ? "," : "") + tree(AS->getOutputExpr(i), top);
             j += "],\"inputs\":[";
             for (unsigned i = 0; i < AS->getNumInputs(); i++) j += (i ? "," : "") + tree(AS->getInputExpr(i), top);
+            j += "],\"names\":[";
+            for (unsigned i = 0; i < AS->getNumOutputs(); i++) j += (i ? "," : "") + jstr(AS->getOutputName(i));
+            for (unsigned i = 0; i < AS->getNumInputs(); i++) j += ((i || AS->getNumOutputs()) ? "," : "") + jstr(AS->getInputName(i));
             j += "],\"constraints\":[";
             for (unsigned i = 0; i < AS->getNumOutputs(); i++) j += (i ? "," : "") + jstr(AS->getOutputConstraint(i));
             for (unsigned i = 0; i < AS->getNumInputs(); i++) j += ((i || AS->getNumOutputs()) ? "," : "") + jstr(AS->getInputConstraint(i));
